@@ -491,4 +491,419 @@ theorem changeBuffer_good {v : Vec} {xs : List Val} (h : Rep v xs) (sz : Nat) (h
       simp only [cell, Buf.fresh] at this ⊢
       grind
 
+/-- a vector with storage is determined by its capacity and its contents -/
+def vecOf (c : Nat) (xs : List Val) : Vec := ⟨some ⟨c, cell xs⟩, c, xs.length⟩
+
+theorem Rep.mk {c : Nat} {xs : List Val} (h : xs.length ≤ c) : Rep (vecOf c xs) xs := by
+  simp [Rep, vecOf, h]
+
+theorem Rep.of_buf {c : Nat} {xs : List Val} {b : Buf} (h : xs.length ≤ c) (hn : b.n = c) (hs : ∀ i, b.s i = cell xs i) :
+    Rep ⟨some b, c, xs.length⟩ xs := by
+  simp [Rep, h, hn, hs]
+
+theorem Rep.of_buf' {c sz : Nat} {xs : List Val} {b : Buf} (hsz : sz = xs.length) (h : xs.length ≤ c)
+    (hn : b.n = c) (hs : ∀ i, b.s i = cell xs i) : Rep ⟨some b, c, sz⟩ xs := by
+  subst hsz; exact Rep.of_buf h hn hs
+
+theorem length_insertAt {xs ys : List Val} {p : Nat} (hp : p ≤ xs.length) :
+    (insertAt xs p ys).length = xs.length + ys.length := by
+  simp [insertAt]; omega
+
+@[simp] theorem held_some (b : Buf) (c s : Nat) : held ⟨some b, c, s⟩ = 1 := by simp [held]
+
+theorem Rep.eq_mk {v : Vec} {xs : List Val} (h : Rep v xs) (hd : v.data.isSome) : v = vecOf v.cap xs := by
+  obtain ⟨hs, hr⟩ := h
+  cases v with
+  | mk d c sz =>
+    cases d with
+    | none => simp at hd
+    | some b =>
+      simp only at hr hs
+      obtain ⟨hn, _, hc⟩ := hr
+      simp only [vecOf, hs]
+      congr 2
+      exact Buf.ext' (b := ⟨c, cell xs⟩) hn hc
+
+theorem Rep.len_le {v : Vec} {xs : List Val} (h : Rep v xs) : xs.length ≤ v.cap := by
+  obtain ⟨hs, hr⟩ := h
+  cases hd : v.data with
+  | none => rw [hd] at hr; simp [hr.2]
+  | some b => rw [hd] at hr; exact hr.2.1
+
+theorem Rep.size_eq {v : Vec} {xs : List Val} (h : Rep v xs) : v.size = xs.length := h.1
+
+theorem Rep.some_of_cap {v : Vec} {xs : List Val} (h : Rep v xs) (hc : 0 < v.cap) : v.data.isSome := by
+  obtain ⟨hs, hr⟩ := h
+  cases hd : v.data with
+  | none => rw [hd] at hr; omega
+  | some b => simp
+
+theorem Rep.none_nil {v : Vec} {xs : List Val} (h : Rep v xs) (hd : v.data = none) : xs = [] ∧ v = Vec.empty := by
+  obtain ⟨hs, hr⟩ := h
+  rw [hd] at hr
+  refine ⟨hr.2, ?_⟩
+  cases v
+  simp_all [Vec.empty]
+
+@[simp] theorem held_vecOf (c : Nat) (xs : List Val) : held (vecOf c xs) = 1 := by simp [held, vecOf]
+@[simp] theorem held_empty : held Vec.empty = 0 := by simp [held, Vec.empty]
+
+theorem reserve_good {v : Vec} {xs : List Val} (h : Rep v xs) (n : Nat) (l : Ledger) :
+    ∃ v' l', reserve v n l = some (v', l') ∧ Rep v' xs ∧ n ≤ v'.cap ∧ v.cap ≤ v'.cap ∧
+      l'.net = l.net ∧ l'.blocks = l.blocks + held v' - held v := by
+  unfold reserve
+  by_cases hn : n > v.cap
+  · obtain ⟨l', h1, h2, h3⟩ := changeBuffer_good h n (by have := h.len_le; omega) l
+    refine ⟨_, l', by simp only [hn, if_true]; exact h1, Rep.mk (by have := h.len_le; omega), ?_, ?_, h2, ?_⟩
+    · simp [vecOf]
+    · simp [vecOf]; omega
+    · rw [h3]; show _ = _ + held (vecOf n xs) - _; simp
+  · exact ⟨v, l, by simp [hn], h, by omega, by omega, rfl, by omega⟩
+
+theorem argVal_of_rep {v : Vec} {xs : List Val} (h : Rep v xs) {a : Arg} {x : Val} (ha : argSpec xs a = some x) :
+    argVal v a = some x := by
+  cases a with
+  | val y => simpa [argSpec, argVal] using ha
+  | own i =>
+    simp only [argSpec] at ha
+    have hi : i < xs.length := by
+      rcases Nat.lt_or_ge i xs.length with h | h
+      · exact h
+      · simp [List.getElem?_eq_none h] at ha
+    have hx : xs.getD i 0 = x := by simp [List.getD_eq_getElem?_getD, ha]
+    obtain ⟨hs, hr⟩ := h
+    simp only [argVal]
+    cases hd : v.data with
+    | none => rw [hd] at hr; rw [hr.2] at hi; simp at hi
+    | some b =>
+      rw [hd] at hr
+      simp only [hs, hi, if_true]
+      exact rd_live (by omega) (by rw [hr.2.2 i, cell_live hi, hx])
+
+theorem emplaceBack_good {v : Vec} {xs : List Val} (h : Rep v xs) {a : Arg} {x : Val}
+    (ha : argSpec xs a = some x) (l : Ledger) :
+    ∃ v' l', emplaceBack v a l = some (v', l') ∧ Good v xs l v' (xs ++ [x]) l' := by
+  have hav := argVal_of_rep h ha
+  unfold emplaceBack
+  by_cases hg : v.size + 1 > v.cap
+  · obtain ⟨l', h1, h2, h3⟩ := changeBuffer_good h (v.size + 1) (by rw [h.size_eq]; omega) (l.addCtor 1)
+    have hsz := h.size_eq
+    simp only [hsz] at h1 hg
+    simp only [hsz, hg, if_true, hav, h1]
+    rw [construct_raw x (by simp) (by simp [cell_raw])]
+    refine ⟨_, _, rfl, ?_, ?_, ?_⟩
+    · have := Rep.of_buf (c := xs.length + 1) (xs := xs ++ [x]) (b := (⟨xs.length + 1, cell xs⟩ : Buf).put xs.length (.live x))
+        (by simp) (by simp [Buf.put]) (by intro i; simp only [Buf.put, cell_snoc])
+      simpa using this
+    · simp [h2]; omega
+    · simp [h3, held]
+  · have hc : 0 < v.cap := by omega
+    have hsome := h.some_of_cap hc
+    have hv := h.eq_mk hsome
+    generalize v.cap = c at *
+    subst hv
+    simp only [vecOf] at hg hav ⊢
+    simp only [hg, if_false, hav]
+    rw [construct_raw x (by simp; omega) (by simp [cell_raw])]
+    refine ⟨_, _, rfl, ?_, ?_, ?_⟩
+    · have := Rep.of_buf (c := c) (xs := xs ++ [x]) (b := (⟨c, cell xs⟩ : Buf).put xs.length (.live x))
+        (by simp; omega) (by simp [Buf.put]) (by intro i; simp only [Buf.put, cell_snoc])
+      simpa using this
+    · simp; omega
+    · simp [held]
+
+theorem Rep.cases {v : Vec} {xs : List Val} (h : Rep v xs) :
+    (v = Vec.empty ∧ xs = []) ∨ (∃ c, v = vecOf c xs ∧ xs.length ≤ c) := by
+  cases hd : v.data with
+  | none => left; exact ⟨(h.none_nil hd).2, (h.none_nil hd).1⟩
+  | some b => right; exact ⟨v.cap, h.eq_mk (by simp [hd]), h.len_le⟩
+
+theorem popBack_good {v : Vec} {xs : List Val} (h : Rep v xs) (hne : xs ≠ []) (l : Ledger) :
+    ∃ v' l', popBack v l = some (v', l') ∧ Good v xs l v' xs.dropLast l' := by
+  rcases h.cases with ⟨_, h0⟩ | ⟨c, rfl, hc⟩
+  · exact absurd h0 hne
+  · have hpos : 0 < xs.length := List.length_pos_iff.mpr hne
+    simp only [popBack, vecOf, Nat.ne_of_gt hpos, if_false]
+    rw [destroy_obj (by simp; omega) (by simp; exact cell_ne_raw (by omega))]
+    refine ⟨_, _, rfl, ?_, ?_, ?_⟩
+    · have := Rep.of_buf (c := c) (xs := xs.dropLast) (b := (⟨c, cell xs⟩ : Buf).put (xs.length - 1) .raw)
+        (by simp; omega) (by simp [Buf.put]) (by intro i; simp only [Buf.put, cell_dropLast, cell]; grind)
+      simpa using this
+    · simp; omega
+    · simp [held]
+
+theorem emplace_good {v : Vec} {xs : List Val} (h : Rep v xs) {a : Arg} {x : Val} {pos : Nat}
+    (hp : pos ≤ xs.length) (ha : argSpec xs a = some x) (l : Ledger) :
+    ∃ v' l', emplace v pos a l = some (v', l') ∧ Good v xs l v' (insertAt xs pos [x]) l' := by
+  have hav := argVal_of_rep h ha
+  obtain ⟨v1, l1, hr, hrep, hcap, _, hnet, hblk⟩ := reserve_good h (v.size + 1) (l.addCtor 1)
+  have hv1 := hrep.eq_mk (hrep.some_of_cap (by omega))
+  have hsz := h.size_eq
+  generalize v1.cap = c at *
+  subst hv1
+  have hlen := length_insertAt (ys := [x]) hp
+  simp only [emplace, hav, hr, vecOf, shiftUpCall]
+  rw [if_neg (by omega), shiftUp_ok (fun j => xs.getD j 0)]
+  · have hn1 := (shiftLed_net xs.length pos 1 (xs.length - pos) l1).1
+    have hn2 := (shiftLed_net xs.length pos 1 (xs.length - pos) l1).2
+    by_cases hlt : pos < xs.length
+    · simp only [hlt, if_true]
+      rw [assign_obj x (by simp; omega) (by simp only; rw [if_pos (by omega), if_pos hlt]; simp)]
+      refine ⟨_, _, rfl, ?_, ?_, ?_⟩
+      · refine Rep.of_buf' (by simp [hlen]) (by simp [hlen]; omega) (by simp [Buf.put]) ?_
+        intro i; rw [cell_insertAt _ _ _ _ hp]
+        simp only [Buf.put, cell, List.length_singleton]; grind [List.getD_cons_zero]
+      · simp only [Ledger.net_addDtor, Ledger.net_addMasg, hn1, hnet, Ledger.net_addCtor, hlen, List.length_singleton]
+        omega
+      · simp only [Ledger.blocks_addDtor, Ledger.blocks_addMasg, hn2, hblk, Ledger.blocks_addCtor, held_vecOf, held_some]
+    · have hpe : pos = xs.length := by omega
+      subst hpe
+      simp only [Nat.lt_irrefl, if_false]
+      rw [construct_raw x (by simp; omega) (by simp)]
+      refine ⟨_, _, rfl, ?_, ?_, ?_⟩
+      · refine Rep.of_buf' (by simp [hlen]) (by simp [hlen]; omega) (by simp [Buf.put]) ?_
+        intro i; rw [cell_insertAt _ _ _ _ hp]
+        simp only [Buf.put, cell, List.length_singleton]; grind [List.getD_cons_zero]
+      · simp only [Ledger.net_addDtor, Ledger.net_addMctor, hn1, hnet, Ledger.net_addCtor, hlen, List.length_singleton]
+        omega
+      · simp only [Ledger.blocks_addDtor, Ledger.blocks_addMctor, hn2, hblk, Ledger.blocks_addCtor, held_vecOf, held_some]
+  · omega
+  · omega
+  · simp; omega
+  · intro j h1 h2; exact cell_live (by omega)
+  · intro j h1 h2
+    exact ⟨fun h3 => by omega, fun _ => cell_raw (by omega)⟩
+
+theorem invalidate_good {v : Vec} {xs : List Val} (h : Rep v xs) (l : Ledger) :
+    ∃ l', invalidate v l = some (Vec.empty, l') ∧ Good v xs l Vec.empty [] l' := by
+  rcases h.cases with ⟨rfl, rfl⟩ | ⟨c, rfl, hc⟩
+  · exact ⟨l, by simp [invalidate, Vec.empty], Rep.nil, by simp, by simp⟩
+  · simp only [invalidate, vecOf]
+    rw [destroyRange_ok _ _ _ _ (by intro j _ h2; exact ⟨by simp; omega, cell_ne_raw (by omega)⟩)]
+    simp only
+    rw [deallocOk_of _ _ rfl (by intro j _; simp only [cell]; grind)]
+    exact ⟨_, rfl, Rep.nil, by simp, by simp⟩
+
+theorem clear_good {v : Vec} {xs : List Val} (h : Rep v xs) (l : Ledger) :
+    ∃ v' l', clear v l = some (v', l') ∧ Good v xs l v' [] l' := by
+  rcases h.cases with ⟨rfl, rfl⟩ | ⟨c, rfl, hc⟩
+  · exact ⟨_, l, by simp [clear, Vec.empty], Rep.nil, by simp, by simp⟩
+  · simp only [clear, vecOf]
+    rw [destroyRange_ok _ _ _ _ (by intro j _ h2; exact ⟨by simp; omega, cell_ne_raw (by omega)⟩)]
+    refine ⟨_, _, rfl, ?_, by simp, by simp⟩
+    exact Rep.of_buf' rfl (by simp) rfl (by intro i; simp only [cell]; grind)
+
+theorem eraseTo_good {v : Vec} {xs : List Val} (h : Rep v xs) {k : Nat} (hk : k ≤ xs.length) (l : Ledger) :
+    ∃ v' l', eraseTo v k l = some (v', l') ∧ Good v xs l v' (xs.take k) l' := by
+  rcases h.cases with ⟨rfl, rfl⟩ | ⟨c, rfl, hc⟩
+  · simp at hk; subst hk
+    exact ⟨_, l, by simp [eraseTo, Vec.empty], Rep.nil, by simp, by simp⟩
+  · simp only [eraseTo, vecOf]
+    simp only [show ¬ (k > xs.length) by omega, if_false]
+    rw [destroyRange_ok _ _ _ _ (by intro j _ h2; exact ⟨by simp; omega, cell_ne_raw (by omega)⟩)]
+    refine ⟨_, _, rfl, ?_, ?_, by simp⟩
+    · refine Rep.of_buf' (by simp; omega) (by simp; omega) rfl ?_
+      intro i; rw [cell_take]; simp only [cell]; grind
+    · simp; omega
+
+theorem erase_good {v : Vec} {xs : List Val} (h : Rep v xs) {f t : Nat} (hft : f ≤ t) (ht : t ≤ xs.length)
+    (l : Ledger) :
+    ∃ v' l', erase v f t l = some (v', l') ∧ Good v xs l v' (xs.take f ++ xs.drop t) l' := by
+  by_cases h0 : t - f = 0
+  · have : f = t := by omega
+    subst this
+    refine ⟨v, l, by simp [erase], ?_, ?_, by omega⟩
+    · simpa using h
+    · simp
+  rcases h.cases with ⟨rfl, rfl⟩ | ⟨c, rfl, hc⟩
+  · simp at ht; omega
+  · simp only [erase, vecOf, h0, if_false]
+    simp only [show ¬ (t > xs.length) by omega, if_false]
+    rw [moveDown_ok (fun j => xs.getD j 0) _ _ _ _ _ (by omega)
+      (by intro j h1 h2; exact ⟨by simp; omega, cell_live (by omega)⟩)
+      (by intro j h1 h2; exact cell_ne_raw (by omega))]
+    simp only
+    rw [destroyRange_ok _ _ _ _ (by intro j h1 h2; refine ⟨by simp; omega, ?_⟩; simp only [cell]; grind)]
+    refine ⟨_, _, rfl, ?_, ?_, by simp⟩
+    · refine Rep.of_buf' (by simp; omega) (by simp; omega) rfl ?_
+      intro i; rw [cell_erase _ _ _ _ hft ht]; simp only [cell]; grind
+    · simp; omega
+
+theorem resize_good {v : Vec} {xs : List Val} (h : Rep v xs) (n : Nat) (l : Ledger) :
+    ∃ v' l', resize v n l = some (v', l') ∧
+      Good v xs l v' (xs.take n ++ List.replicate (n - xs.length) 0) l' := by
+  obtain ⟨v1, l1, hr, hrep, hcap, _, hnet, hblk⟩ := reserve_good h n l
+  simp only [resize, hr]
+  rcases hrep.cases with ⟨rfl, rfl⟩ | ⟨c, rfl, hc⟩
+  · simp [Vec.empty] at hcap; subst hcap
+    exact ⟨Vec.empty, l1, by simp [Vec.empty], by simpa using Rep.nil, by simp [hnet], by simp [hblk]⟩
+  · simp only [vecOf] at hcap ⊢
+    by_cases hgt : n > xs.length
+    · simp only [hgt, if_true]
+      rw [defaultLoop_ok _ _ _ _ (by intro j h1 h2; exact ⟨by simp; omega, cell_raw (by omega)⟩)]
+      refine ⟨_, _, rfl, ?_, ?_, ?_⟩
+      · refine Rep.of_buf' (by simp; omega) (by simp; omega) rfl ?_
+        intro i; rw [cell_resize]; simp only [cell]; grind
+      · simp [hnet]; omega
+      · simp [hblk]
+    · simp only [hgt, if_false]
+      rw [destroyRange_ok _ _ _ _ (by intro j h1 h2; exact ⟨by simp; omega, cell_ne_raw (by omega)⟩)]
+      refine ⟨_, _, rfl, ?_, ?_, ?_⟩
+      · refine Rep.of_buf' (by simp; omega) (by simp; omega) rfl ?_
+        intro i; rw [cell_resize]; simp only [cell]; grind
+      · simp [hnet]; omega
+      · simp [hblk]
+
+theorem Good.trans {v v1 v2 : Vec} {xs xs1 xs2 : List Val} {l l1 l2 : Ledger}
+    (a : Good v xs l v1 xs1 l1) (b : Good v1 xs1 l1 v2 xs2 l2) : Good v xs l v2 xs2 l2 :=
+  ⟨b.rep, by have := a.net; have := b.net; omega, by have := a.blk; have := b.blk; omega⟩
+
+theorem srcSpec_count {xs ys : List Val} {src : Src} (h : srcSpec xs src = some ys) : src.count = ys.length := by
+  cases src with
+  | own f t =>
+    simp only [srcSpec] at h
+    split at h
+    · cases h; simp [Src.count]; omega
+    · cases h
+  | ext zs => simp only [srcSpec] at h; cases h; rfl
+
+theorem insertRange_good {v : Vec} {xs ys : List Val} (h : Rep v xs) {src : Src} {pos : Nat}
+    (hp : pos ≤ xs.length) (hs : srcSpec xs src = some ys) (l : Ledger) :
+    ∃ v' l', insertRange v pos src l = some (v', l') ∧ Good v xs l v' (insertAt xs pos ys) l' := by
+  have hcnt := srcSpec_count hs
+  by_cases h0 : src.count = 0
+  · have : ys = [] := by rw [hcnt] at h0; exact List.eq_nil_of_length_eq_zero h0
+    subst this
+    refine ⟨v, l, by simp [insertRange, h0], ?_, ?_, by omega⟩
+    · simpa [insertAt] using h
+    · simp [insertAt]
+  obtain ⟨v1, l1, hr, hrep, hcap, _, hnet, hblk⟩ := reserve_good h (v.size + src.count) l
+  have hv1 := hrep.eq_mk (hrep.some_of_cap (by omega))
+  have hsz := h.size_eq
+  generalize v1.cap = c at *
+  subst hv1
+  have hlen := length_insertAt (ys := ys) hp
+  simp only [insertRange, h0, if_false, hr, vecOf, shiftUpCall]
+  rw [hcnt] at h0 hcap hr
+  simp only [hcnt]
+  rw [shiftUp_ok (fun j => xs.getD j 0) _ _ _ _ _ _ (by omega) (by omega) (by simp; omega)
+    (by intro j h1 h2; exact cell_live (by omega))
+    (by intro j h1 h2; exact ⟨fun h3 => by omega, fun _ => cell_raw (by omega)⟩)]
+  simp only
+  rw [fillLoop_ok (fun k => ys.getD k 0) _ _ _ _ _ _ _ _ (by omega)]
+  · have hn1 := shiftLed_net xs.length pos ys.length (xs.length - pos) l1
+    have hn2 := fillLed_net pos xs.length 0 ys.length (shiftLed xs.length pos ys.length (xs.length - pos) l1)
+    refine ⟨_, _, rfl, ?_, ?_, ?_⟩
+    · refine Rep.of_buf' (by simp [hlen]) (by simp [hlen]; omega) rfl ?_
+      intro i; rw [cell_insertAt _ _ _ _ hp]
+      simp only [cell]; grind
+    · rw [hn2.1, hn1.1, hnet, hlen]; omega
+    · rw [hn2.2, hn1.2, hblk]; simp
+  · intro k' _ hk' b' hb' hag
+    cases src with
+    | ext zs =>
+      simp only [srcSpec] at hs; cases hs
+      have hk2 : k' < ys.length := by omega
+      simp only [srcVal]
+      simp [List.getD_eq_getElem?_getD, List.getElem?_eq_getElem hk2]
+    | own f t =>
+      simp only [srcSpec] at hs
+      split at hs
+      · rename_i hft
+        cases hs
+        have hyl : ((xs.drop f).take (t - f)).length = t - f := by simp; omega
+        simp only [srcVal]
+        rw [getD_sub _ _ _ _ (by omega)]
+        by_cases hlt : f + k' < pos
+        · simp only [hlt, if_true]
+          apply rd_live (by simp at hb'; omega)
+          rw [hag _ (by omega)]
+          simp only; rw [if_neg (by omega), if_neg (by omega)]
+          exact cell_live (by omega)
+        · simp only [hlt, if_false]
+          apply rd_live (by simp at hb'; omega)
+          rw [hag _ (by omega)]
+          simp only; rw [if_neg (by omega), if_pos (by omega)]
+          congr 2; omega
+      · cases hs
+  · intro j h1 h2
+    refine ⟨by simp; omega, ?_, ?_⟩
+    · intro h3; simp only; rw [if_pos (by omega), if_pos h3]; simp
+    · intro h3; simp only; rw [if_pos (by omega), if_neg (by omega)]
+
+theorem copyCtor_good (portable : Bool) {o : Vec} {ys : List Val} (h : Rep o ys) (l : Ledger) :
+    ∃ v' l', copyCtor portable o l = some (v', l') ∧ Good Vec.empty [] l v' ys l' := by
+  unfold copyCtor
+  by_cases hp : (portable && o.size == 0) = true
+  · simp only [hp, if_true]
+    have : ys = [] := by
+      simp at hp; have := h.size_eq; exact List.eq_nil_of_length_eq_zero (by omega)
+    subst this
+    exact ⟨_, l, rfl, Rep.nil, by simp, by simp⟩
+  · simp only [hp]
+    rcases h.cases with ⟨rfl, rfl⟩ | ⟨c, rfl, hc⟩
+    · simp only [Vec.empty, copyLoop_zero]
+      refine ⟨_, _, rfl, ?_, by simp, by simp [held, Vec.empty]⟩
+      exact Rep.of_buf' rfl (by simp) rfl (by intro i; simp [Buf.fresh, cell_nil])
+    · simp only [vecOf]
+      rw [copyLoop_ok (fun j => ys.getD j 0) _ _ _ _ _
+        (by intro j _ h2; exact ⟨by simp; omega, cell_live (by omega), by simp [Buf.fresh]; omega, by simp [Buf.fresh]⟩)]
+      refine ⟨_, _, rfl, ?_, by simp, by simp⟩
+      refine Rep.of_buf' rfl (by simp) rfl ?_
+      intro i; simp only [cell, Buf.fresh]; grind
+
+theorem copyAssign_good {v o : Vec} {xs ys : List Val} (hv : Rep v xs) (h : Rep o ys) (l : Ledger) :
+    ∃ v' l', copyAssign v o l = some (v', l') ∧ Good v xs l v' ys l' := by
+  obtain ⟨l1, h1, g1⟩ := invalidate_good hv l
+  obtain ⟨v2, l2, h2, g2⟩ := copyCtor_good false h l1
+  refine ⟨v2, l2, ?_, g1.trans g2⟩
+  simp only [copyAssign, h1]
+  simpa [copyCtor] using h2
+
+theorem pushAll_good {v : Vec} {xs : List Val} (h : Rep v xs) (ys : List Val) (l : Ledger) :
+    ∃ v' l', pushAll v ys l = some (v', l') ∧ Good v xs l v' (xs ++ ys) l' := by
+  induction ys generalizing v xs l with
+  | nil => exact ⟨v, l, rfl, by simpa using h, by simp, by omega⟩
+  | cons y ys ih =>
+    obtain ⟨v1, l1, h1, g1⟩ := emplaceBack_good h (a := .val y) (x := y) rfl l
+    obtain ⟨v2, l2, h2, g2⟩ := ih g1.rep l1
+    refine ⟨v2, l2, by simp [pushAll, h1, h2], ?_⟩
+    have := g1.trans g2
+    simpa using this
+
+theorem listCtor_good (ys : List Val) (l : Ledger) :
+    ∃ v' l', listCtor ys l = some (v', l') ∧ Good Vec.empty [] l v' ys l' := by
+  obtain ⟨v1, l1, hr, hrep, _, _, hnet, hblk⟩ := reserve_good Rep.nil ys.length l
+  obtain ⟨v2, l2, h2, g2⟩ := pushAll_good hrep ys l1
+  refine ⟨v2, l2, by simp [listCtor, hr, h2], ?_⟩
+  have g1 : Good Vec.empty [] l v1 [] l1 := ⟨hrep, by simp [hnet], by omega⟩
+  simpa using g1.trans g2
+
+theorem readRange_ok {o : Vec} {ys : List Val} (h : Rep o ys) (f n : Nat) (hfn : f + n ≤ ys.length) :
+    readRange o f n = some ((ys.drop f).take n) := by
+  induction n generalizing f with
+  | zero => simp [readRange]
+  | succ n ih =>
+    rcases h.cases with ⟨rfl, rfl⟩ | ⟨c, rfl, hc⟩
+    · simp at hfn
+    · have hf : f < ys.length := by omega
+      have := ih (f + 1) (by omega)
+      simp only [vecOf] at this
+      simp only [readRange, vecOf, hf, if_true, this]
+      rw [rd_live (by simp; omega) (cell_live hf)]
+      simp only [Option.some.injEq]
+      rw [List.drop_eq_getElem_cons hf, List.take_succ_cons]
+      simp [List.getD_eq_getElem?_getD, List.getElem?_eq_getElem hf]
+
+theorem rangeCtor_good {o : Vec} {ys : List Val} (h : Rep o ys) {f t : Nat} (hft : f ≤ t) (ht : t ≤ ys.length)
+    (l : Ledger) :
+    ∃ v' l', rangeCtor o f t l = some (v', l') ∧ Good Vec.empty [] l v' ((ys.drop f).take (t - f)) l' := by
+  obtain ⟨v2, l2, h2, g2⟩ := pushAll_good Rep.nil ((ys.drop f).take (t - f)) l
+  refine ⟨v2, l2, by simp [rangeCtor, readRange_ok h f (t - f) (by omega), h2], by simpa using g2⟩
+
+theorem sizeCtor_good (n : Nat) (l : Ledger) :
+    ∃ v' l', sizeCtor n l = some (v', l') ∧ Good Vec.empty [] l v' (List.replicate n 0) l' := by
+  obtain ⟨v', l', h1, g⟩ := resize_good Rep.nil n l
+  exact ⟨v', l', h1, by simpa using g⟩
+
 end Igris.C02
